@@ -264,7 +264,7 @@ PROPS["C01"] = {
                    "c01::c01_reader_ctxbox_k3", "c01::c01_counter_box_k3", "c01::c01_counter_mut_k3", "c01::c01_counter_ctxbox_k3",
                    "c01::c01_consume_box_k2", "c01::c01_consume_ctxbox_k2", "c01::c01_group_consume", "c01::c01_group_box_k3",
                    "c01::c01_group_cast_k2", "c01::c01_group_mut_k3", "c01::c01_generic_and_lifetime_traits",
-                   "c01::c01_negative_twin"],
+                   "c01::c01_two_borrowed_results_alive", "c01::c01_negative_twin"],
          "thorough_adds": ["c01::c01_reader_box_k4", "c01::c01_reader_ref_k4", "c01::c01_reader_arc_k4", "c01::c01_counter_box_k4",
                            "c01::c01_counter_mut_k4", "c01::c01_counter_ctxbox_k4", "c01::c01_consume_box_k3",
                            "c01::c01_consume_ctxbox_k3", "c01::c01_group_box_k4", "c01::c01_group_cast_k3", "c01::c01_group_mut_k4"],
@@ -319,14 +319,17 @@ PROPS["C04"] = {
     "groups": [
         {"id": "layout",
          "quick": ["c04::c04_vtbl_counter", "c04::c04_vtbl_reader_consume_gen", "c04::c04_group_words",
-                   "c04::c04_object_words_and_sizes", "c04::c04_negative_twin"],
+                   "c04::c04_object_words_and_sizes", "c04::c04_vtbl_only_in_declaration_order",
+                   "c04::c04_group_alias_name_order", "c04::c04_object_with_context_words", "c04::c04_negative_twin"],
          "timeout": 900},
     ],
     "negative": ["c04::c04_negative_twin"],
     "bounds": "raw words of 5 corpus vtables vs the per-name getters in declaration order (size == n words, entries distinct and "
               "non-null, #[skip_func] method not exported); raw words of a boxed group with a visible context: mandatory vtable, "
               "optional vtables in name order with SYMBOLIC presence (null iff absent, equal to that trait's vtable when present), "
-              "instance pointer, drop function, context; concrete vs opaque form bit-identical; cast result has the group's "
+              "instance pointer, drop function, context; a trait with a #[vtbl_only] method between regular ones and a "
+              "#[skip_func] method, every slot CALLED by position; a group with aliased generic members whose alias and trait "
+              "name sort differently, each optional word called by position; a single-trait object with a visible context; concrete vs opaque form bit-identical; cast result has the group's "
               "words; size/align equalities",
     "outside": "the clause 'expanding the same definitions again, in another process or crate, yields the same layout' "
                "(determinism of a proc-macro under fresh hash seeds - no solver query expresses it); definitions outside the corpus",
@@ -358,6 +361,7 @@ PROPS["C07"] = {
     "groups": [
         {"id": "context",
          "quick": ["c07::c07_owned_tree", "c07::c07_consuming_call_keeps_context", "c07::c07_clone_cast_selfreturn",
+                   "c07::c07_caller_glue_holds_context_across_consuming_call", "c07::c07_instance_destroyed_before_context_released",
                    "c07::c07_kf_borrowed_obj_ref", "c07::c07_kf_borrowed_obj_mut", "c07::c07_kf_borrowed_group_ref",
                    "c07::c07_negative_twin"],
          "cbmc_args": LEAK, "timeout": 1800},
@@ -372,8 +376,10 @@ PROPS["C07"] = {
               "obtain owned group child, drop a child}, symbolic ending {drop, finish, into_leaf}, both child drop orders; "
               "count == 1 + holders after every step and back to the start at the end; by-value calls: the implementor "
               "records the count seen inside the method body and while the consumed value is dropped inside the callee; "
-              "clone / Self return / cast / into of a group with context. Borrowed-child scenarios are separate known-finding "
-              "harnesses",
+              "clone / Self return / cast / into of a group with context; the CALLER-side glue of a by-value call isolated by "
+              "giving the object a foreign vtable whose entry plays the callee (after the callee released the reference it "
+              "received, the caller's clone must still be alive); instance destroyed before the object's own context clone is "
+              "released. Borrowed-child scenarios are separate known-finding harnesses",
     "outside": "std::sync::Arc / CArc as the context type (the counted context exercises the same generated clone/move plumbing; "
                "CArc itself is C10's subject); trees of more than 3 objects",
     "assumptions": KANI_ASSUME + ["context = harness-defined Clone + Send + Sync type counting clones/drops in statics"],
